@@ -105,6 +105,7 @@ func init() {
 			return []Instance{
 				{Scenario: "c16_hist", Params: mustJSON(MetricParams{Depth: d}), Bound: 0, Shards: 8},
 				{Scenario: "c16_hist", Params: mustJSON(MetricParams{Depth: d - 1, SkipUntil: true}), Bound: 0, Shards: 4, Note: "skipUntil configured: events older than it are not accepted and not counted"},
+				{Scenario: "c12_duringopen", Params: mustJSON(struct{}{}), Bound: 1, Shards: 4, Note: "the active-stream figure when a stream ends while Open() still waits for another vBucket"},
 				{Scenario: "c16_race", Params: mustJSON(ScrapeRaceParams{Against: "close"}), Bound: b, Shards: sh},
 				{Scenario: "c16_race", Params: mustJSON(ScrapeRaceParams{Against: "rebalance"}), Bound: b, Shards: sh},
 				{Scenario: "c16_race", Params: mustJSON(ScrapeRaceParams{Against: "open"}), Bound: b, Shards: sh},
@@ -233,7 +234,7 @@ func metricHistMain(p MetricParams) {
 	}
 	check()
 	for step := 0; step < p.Depth; step++ {
-		op := vrt.Choose(8, true, "op")
+		op := vrt.Choose(9, true, "op")
 		restore := func() {}
 		switch op {
 		case 0, 1: // deliver on the first / last vBucket of the range
@@ -293,6 +294,18 @@ func metricHistMain(p MetricParams) {
 				ref.rng = [2]uint16{2, 3}
 			}
 			ref.kinds = map[uint16]map[string]int{} // new observers: counters restart with the session
+			e.Cons.Events = nil
+		case 8: // two requests for the same numbering back to back: one rebalance happens, one is counted
+			publishInfo(e, ref.member[0], ref.member[1])
+			vrt.Sleep(1)
+			e.Stream.Rebalance()
+			e.Stream.Rebalance()
+			// (the second request re-arms the timer with the configured delay, also with dynamic membership)
+			vrt.Sleep(e.Cfg.Dcp.Group.Membership.RebalanceDelay + time.Second)
+			vrt.Quiesce()
+			hist = append(hist, "rebalance-requested-twice")
+			ref.rebal++
+			ref.kinds = map[uint16]map[string]int{}
 			e.Cons.Events = nil
 		case 7: // the server's high seqno as seen by the next scrape drops below / jumps above the position
 			vb := ref.rng[0]
